@@ -792,10 +792,23 @@ static int real_main(int argc, char **argv)
       /* a text that includes such a file; w[1] names it for the model only */
       char *s = unhex(w[2], NULL); int r; cap_begin(); r = config_read_string(&cfg, s ? s : ""); cap_end(); do_read(r); free(s);
     }
+    else if (OP("read_alias", 3)) {
+      /* a read whose argument is a string the configuration itself owns: file | string  x  errfile | srcfile | value */
+      config_setting_t *p = strcmp(w[2], "errfile") ? at(w[2]) : NULL; const char *q = NULL; int r;
+      if (!strcmp(w[2], "errfile")) q = config_error_file(&cfg);
+      else if (p) q = config_setting_get_string(p);
+      if (!q) printf("bad-op");
+      else { cap_begin(); r = !strcmp(w[1], "file") ? config_read_file(&cfg, q) : config_read_string(&cfg, q); cap_end(); do_read(r); }
+    }
+    else if (OP("read_alias_src", 3)) {
+      config_setting_t *p = at(w[2]); const char *q = p ? config_setting_source_file(p) : NULL; int r;
+      if (!q) printf("bad-op");
+      else { cap_begin(); r = !strcmp(w[1], "file") ? config_read_file(&cfg, q) : config_read_string(&cfg, q); cap_end(); do_read(r); }
+    }
     else if (OP("read_file", 2)) { char *p = unhex(w[1], NULL); int r; cap_begin(); r = config_read_file(&cfg, p); cap_end(); do_read(r); free(p); }
     else if (OP("mkfile", 3)) {
       size_t len; char *p = unhex(w[1], NULL); char *c = unhex(w[2], &len); FILE *f;
-      char *slash = strrchr(p, '/'); if (slash && slash != p) { *slash = 0; mkdir(p, 0777); *slash = '/'; }
+      { char *q; for (q = p + 1; *q; q++) if (*q == '/') { *q = 0; mkdir(p, 0777); *q = '/'; } }   /* every missing directory level */
       rmdir(p); f = fopen(p, "wb");
       if (f) { if (len) fwrite(c, 1, len, f); fclose(f); printf("ok"); } else printf("mkfile-failed");
       free(p); free(c);
